@@ -3,12 +3,14 @@ import MdkVerif.Model.Proposal
 import MdkVerif.Proofs.Client
 import MdkVerif.Proofs.Proposal
 import MdkVerif.Props.C06
+import MdkVerif.Model.Identity
+import MdkVerif.Proofs.Identity
 /-
   C05 — Only admins change roster or group data; identities never change.  Decision logic of
   `process_commit` / `process_proposal` stated outright over the client model (commit contents are the
   model's `Body` + swept proposals; identities are the model's client numbers, which no operation of the
-  model rewrites: identity changes are rejected by `validate_commit_identities`, exercised by
-  the harness's adversarial commits (op `advident`, implementation-only probe `vlib/c05ident.py`), not re-modelled).
+  model rewrites; the LAST SENTENCE of the property — identities bound to leaves, credentials that change, mdk's
+  `validate_commit_identities` — has its own model `Model.Identity` and its theorems in section `Identity` at the end of this file).
 -/
 namespace MdkVerif.Props.C05
 open MdkVerif MdkVerif.Client
@@ -708,5 +710,205 @@ example : PendClean C06.wAfterGood ∧ OldKind C06.wAfterGood.id C06.wEvil ∧ O
   · show [] = [] ∧ removesMe 2 _ [] = false; exact ⟨rfl, rfl⟩
 
 end Proposals
+
+/-! ## "No accepted commit or proposal changes the Nostr identity bound to an existing member"  (Model.Identity, §13.18)
+
+  An EXISTING MEMBER of a commit is a leaf that is occupied before the commit and is not named by a Remove proposal of the commit: it
+  is the same member before and after.  A leaf that a commit removes and re-fills with an Add is a roster change (admin only:
+  `roster_change_admin_only`), not a member whose identity changed — `leaf_identity_full_false` shows that the cruder reading
+  "the identity at an occupied leaf index never changes" is false of the code, and of MLS.
+
+  Every theorem is stated for `Identity.codeShape`, the shape of `validate_commit_identities` / `process_commit` / `process_proposal`
+  REGENERATED from the source (tools/gen_model.py: which proposal iterators are read, that stored and proposed identity — both
+  `parse_credential_identity(BasicCredential.identity())` — are compared and the refusal propagated, authorisation → identities →
+  merge), and proved by transporting along `decide : codeShape = provedShape`: a source in which a comparison is deleted
+  (mutant M0357) or the order changes no longer satisfies them. -/
+section Identity
+open MdkVerif.Identity in
+/-- the shape of the source is the shape these theorems were proved for -/
+theorem identity_shape_as_proved : Identity.codeShape = Identity.provedShape := by decide
+
+/-- **accept_iff_no_identity_change**: `validate_commit_identities` passes EXACTLY when no Update proposal of the staged commit (by
+    a member whose leaf is occupied) and not its update path (committer a member whose leaf is occupied) carries a credential whose
+    parsed Nostr identity differs from the one parsed from the leaf's stored credential — and all credentials involved parse -/
+theorem accept_iff_no_identity_change (t : Identity.Tree) (s : Identity.Staged) :
+    Identity.validateCommitIdentities Identity.codeShape t s = .ok () ↔ Identity.NoIdentityChange t s := by
+  have h : Identity.codeShape = Identity.provedShape := by decide
+  rw [h]; exact Identity.validateCommitIdentities_ok_iff t s
+
+/-- the head of `process_commit` as a whole: authorisation AND no identity change -/
+theorem commit_accept_iff (st : Identity.St) (s : Identity.Staged) :
+    Identity.mdkValidate Identity.codeShape st s = .ok () ↔
+      (Identity.validateAuthorization st s = .ok () ∧ Identity.NoIdentityChange st.tree s) := by
+  have h : Identity.codeShape = Identity.provedShape := by decide
+  rw [h]; exact Identity.mdkValidate_ok_iff st s
+
+/-- **identity_preserved**: ALL group states, ALL staged commits, any rule set of the MLS library: if the commit is accepted, every
+    existing member (leaf occupied before, not named by a Remove of the commit) is still there afterwards and its credential is
+    the old one or one with the same Nostr identity; and a refused commit changes nothing at all -/
+theorem identity_preserved (R : Identity.MlsRules) (st : Identity.St) (s : Identity.Staged) :
+    ((Identity.processCommit Identity.codeShape R st s).2 = .ok () →
+      ∀ l c, Identity.lookup l st.tree = some c → Identity.removed s l = false →
+        ∃ c', Identity.lookup l (Identity.processCommit Identity.codeShape R st s).1.tree = some c' ∧ Identity.KeepsId c c') ∧
+    ((Identity.processCommit Identity.codeShape R st s).2 ≠ .ok () → (Identity.processCommit Identity.codeShape R st s).1 = st) := by
+  have h : Identity.codeShape = Identity.provedShape := by decide
+  rw [h]
+  unfold Identity.processCommit
+  by_cases ha : Identity.mlsAdmits R st s = true
+  · simp only [ha, Bool.not_true, Bool.false_eq_true, if_false]
+    cases hv : Identity.mdkValidate Identity.provedShape st s with
+    | error e => exact ⟨fun hh => (by cases hh), fun _ => rfl⟩
+    | ok u =>
+      cases u
+      refine ⟨fun _ l c h0 hr => ?_, fun hh => absurd rfl hh⟩
+      exact Identity.applyCommit_keeps st.tree s ((Identity.mdkValidate_ok_iff st s).1 hv).2 l c h0 hr
+  · have ha' : Identity.mlsAdmits R st s = false := by simpa using ha
+    simp [ha']
+
+/-- the member LIST read off the tree (`get_members`): an identity that was a member and whose leaf is not removed is still listed -/
+theorem existing_member_keeps_its_identity (R : Identity.MlsRules) (st : Identity.St) (s : Identity.Staged) (l : Identity.Leaf)
+    (i k : Nat) (h0 : Identity.lookup l st.tree = some (.basic i k)) (hr : Identity.removed s l = false)
+    (hacc : (Identity.processCommit Identity.codeShape R st s).2 = .ok ()) :
+    ∃ k', Identity.lookup l (Identity.processCommit Identity.codeShape R st s).1.tree = some (.basic i k') := by
+  obtain ⟨c', h1, hk⟩ := (identity_preserved R st s).1 hacc l _ h0 hr
+  rcases hk with e | ⟨j, e1, e2⟩
+  · exact ⟨k, by rw [h1, e]⟩
+  · cases c' with
+    | basic i' k' =>
+      simp [Identity.credIdentity] at e1 e2
+      have : i' = i := e2.trans e1.symm
+      subst this; exact ⟨k', h1⟩
+    | badId n => simp [Identity.credIdentity] at e2
+    | notBasic n => simp [Identity.credIdentity] at e2
+
+/-- stand-alone proposals: `process_proposal` never touches the tree (nor the admins), whatever the proposal and whatever it stores -/
+theorem proposal_keeps_every_identity (st : Identity.St) (q : Identity.QProp) :
+    (Identity.processProposal Identity.codeShape st q).tree = st.tree ∧
+    (Identity.processProposal Identity.codeShape st q).admins = st.admins := Identity.processProposal_tree _ st q
+
+/-- mdk does not look at a stand-alone Update proposal at all: it is answered `IgnoredProposal` and NOT stored, so the proposal store
+    of a receiver never holds an Update (invariant over proposals and commits) … -/
+theorem update_proposal_never_stored (R : Identity.MlsRules) (st : Identity.St) (h : Identity.StoreNoUpdate st) :
+    (∀ q, Identity.StoreNoUpdate (Identity.processProposal Identity.codeShape st q)) ∧
+    (∀ s, Identity.StoreNoUpdate (Identity.processCommit Identity.codeShape R st s).1) := by
+  have hs : Identity.codeShape = Identity.provedShape := by decide
+  rw [hs]
+  exact ⟨fun q => Identity.processProposal_store st q h, fun s => Identity.processCommit_store _ R st s h⟩
+
+/-- … hence, under OpenMLS 0.8.1's rules (an inline Update is refused; a by-reference proposal must be in the receiver's store), NO
+    staged commit that reaches `process_commit` carries an Update proposal: the per-proposal comparison of
+    `validate_commit_identities` is unreachable on a stock receiver, the update path is the one live channel, and the accept
+    decision is authorisation + the path comparison -/
+theorem update_loop_unreachable (st : Identity.St) (s : Identity.Staged) (h : Identity.StoreNoUpdate st)
+    (ha : Identity.mlsAdmits Identity.openmls081 st s = true) :
+    s.props.filter Identity.isUpdate = [] ∧
+    (Identity.validateCommitIdentities Identity.codeShape st.tree s = .ok () ↔ Identity.PathKeeps st.tree s) := by
+  have hn := Identity.no_update_reaches_mdk st s h ha
+  refine ⟨hn, ?_⟩
+  rw [accept_iff_no_identity_change]
+  refine ⟨fun x => x.2, fun x => ⟨?_, x⟩⟩
+  intro q hq c l cur e1 _ _
+  have : q ∈ s.props.filter Identity.isUpdate := List.mem_filter.2 ⟨hq, by simp [Identity.isUpdate, e1]⟩
+  rw [hn] at this; cases this
+
+/-! ### closed witnesses: group of three (leaves 0 1 2, identities 10 11 12, admin 10), one comparison each -/
+def iTree : Identity.Tree := [(0, .basic 10 100), (1, .basic 11 101), (2, .basic 12 102)]
+def iSt : Identity.St := { tree := iTree, admins := [10], store := [] }
+/-- member 1 (not an admin): a commit without proposals whose path keeps / changes the identity (fresh signature key both times) -/
+def iPathSame : Identity.Staged := { sender := .member 1, props := [], path := some (.basic 11 201) }
+def iPathOther : Identity.Staged := { sender := .member 1, props := [], path := some (.basic 99 201) }
+/-- the identity of ANOTHER member (12) on one's own leaf -/
+def iPathSteal : Identity.Staged := { sender := .member 1, props := [], path := some (.basic 12 201) }
+/-- admin 0 commits member 2's Update proposal by reference (receiver holding it in its store): same / other identity -/
+def iUpdSame : Identity.QProp := { p := .update (.basic 12 202), sender := .member 2, byRef := true }
+def iUpdOther : Identity.QProp := { p := .update (.basic 77 202), sender := .member 2, byRef := true }
+def iRefSame : Identity.Staged := { sender := .member 0, props := [iUpdSame], path := some (.basic 10 200) }
+def iRefOther : Identity.Staged := { sender := .member 0, props := [iUpdOther], path := some (.basic 10 200) }
+
+/-- the two accepted commits differ from the two refused ones ONLY in the identity of one credential -/
+theorem witness_path_comparison :
+    Identity.mdkValidate Identity.codeShape iSt iPathSame = .ok () ∧
+    Identity.mdkValidate Identity.codeShape iSt iPathOther = .error .identityChange ∧
+    Identity.mdkValidate Identity.codeShape iSt iPathSteal = .error .identityChange ∧
+    Identity.mlsAdmits Identity.openmls081 iSt iPathOther = true := by decide
+
+theorem witness_update_comparison :
+    Identity.mdkValidate Identity.codeShape { iSt with store := [iUpdSame] } iRefSame = .ok () ∧
+    Identity.mdkValidate Identity.codeShape { iSt with store := [iUpdOther] } iRefOther = .error .identityChange ∧
+    Identity.mlsAdmits Identity.openmls081 { iSt with store := [iUpdOther] } iRefOther = true ∧
+    -- … but a stock receiver never stored the proposal: OpenMLS refuses the commit, honest or not
+    (Identity.processCommit Identity.codeShape Identity.openmls081 iSt iRefSame).2 = .error .mls ∧
+    (Identity.processCommit Identity.codeShape Identity.openmls081 iSt iRefOther).2 = .error .mls := by decide
+
+/-- what each comparison is worth: with it deleted (the shape of mutant M0357 / M0108) the identity-changing commit is accepted, the
+    MLS library does not object, and leaf 1 / leaf 2 is bound to a foreign identity afterwards; had the MLS library refused
+    credential changes itself (`refusesCredChange`), mdk's comparison would be redundant — it does not -/
+theorem witness_comparison_is_the_only_guard :
+    (Identity.processCommit { Identity.provedShape with pathCompared := false } Identity.openmls081 iSt iPathOther).2 = .ok () ∧
+    Identity.lookup 1 (Identity.processCommit { Identity.provedShape with pathCompared := false } Identity.openmls081 iSt iPathOther).1.tree
+      = some (.basic 99 201) ∧
+    (Identity.processCommit { Identity.provedShape with updateCompared := false } Identity.openmls081 { iSt with store := [iUpdOther] } iRefOther).2 = .ok () ∧
+    (Identity.processCommit { Identity.provedShape with identitiesChecked := false } Identity.openmls081 iSt iPathOther).2 = .ok () ∧
+    (Identity.processCommit { Identity.provedShape with pathCompared := false } { Identity.openmls081 with refusesCredChange := true } iSt iPathOther).2
+      = .error .mls := by decide
+
+/-- the order authorisation → identities matters: `validate_commit_identities` alone lets an external committer's or a blank leaf's
+    path through (`if let … && let Some(..)` without `else`); authorisation, which runs first, refuses both as `MessageFromNonMember` -/
+theorem witness_authorisation_closes_the_fallthrough :
+    Identity.validateCommitIdentities Identity.codeShape iTree { sender := .newMemberCommit, props := [], path := some (.basic 99 1) } = .ok () ∧
+    Identity.validateCommitIdentities Identity.codeShape iTree { sender := .member 5, props := [], path := some (.basic 99 1) } = .ok () ∧
+    Identity.mdkValidate Identity.codeShape iSt { sender := .newMemberCommit, props := [], path := some (.basic 99 1) } = .error .nonMember ∧
+    Identity.mdkValidate Identity.codeShape iSt { sender := .member 5, props := [], path := some (.basic 99 1) } = .error .nonMember := by decide
+
+/-- an Add of an identity that IS a member (second leaf for identity 11) is not looked at by `validate_commit_identities`: an admin's
+    commit is accepted, no existing leaf changes, the member list (a set) is unchanged; a non-admin's is refused by authorisation -/
+theorem witness_add_of_present_identity :
+    (Identity.processCommit Identity.codeShape Identity.openmls081 iSt
+        { sender := .member 0, props := [{ p := .add (.basic 11 301), sender := .member 0, byRef := false }], path := some (.basic 10 200) }).2 = .ok () ∧
+    (Identity.processCommit Identity.codeShape Identity.openmls081 iSt
+        { sender := .member 0, props := [{ p := .add (.basic 11 301), sender := .member 0, byRef := false }], path := some (.basic 10 200) }).1.tree
+      = [(0, .basic 10 200), (3, .basic 11 301), (1, .basic 11 101), (2, .basic 12 102)] ∧
+    (Identity.processCommit Identity.codeShape Identity.openmls081 iSt
+        { sender := .member 1, props := [{ p := .add (.basic 11 301), sender := .member 1, byRef := false }], path := some (.basic 11 201) }).2 = .error .nonAdmin := by decide
+
+/-- the cruder reading — "the identity at a leaf index that is occupied before and after never changes" -/
+def leaf_identity_full : Prop :=
+  ∀ (st : Identity.St) (s : Identity.Staged), (Identity.processCommit Identity.codeShape Identity.openmls081 st s).2 = .ok () →
+    ∀ l c c', Identity.lookup l st.tree = some c →
+      Identity.lookup l (Identity.processCommit Identity.codeShape Identity.openmls081 st s).1.tree = some c' → Identity.KeepsId c c'
+
+/-- an admin's Remove(1) + Add(new identity 50) in ONE commit: OpenMLS puts the newcomer on the leaf just freed.  Accepted; leaf 1 now
+    carries identity 50.  That is a roster change by an admin (member 11 is gone, member 50 is new), not an identity change of an
+    existing member; `identity_preserved` excludes exactly the leaves the commit removes -/
+def iRemoveAdd : Identity.Staged :=
+  { sender := .member 0, path := some (.basic 10 200),
+    props := [{ p := .remove 1, sender := .member 0, byRef := false }, { p := .add (.basic 50 500), sender := .member 0, byRef := false }] }
+
+theorem leaf_identity_full_false : ¬ leaf_identity_full := by
+  intro h
+  have := h iSt iRemoveAdd (by decide) 1 (.basic 11 101) (.basic 50 500) (by decide) (by decide)
+  rcases this with e | ⟨i, e1, e2⟩
+  · cases e
+  · injection e1 with e1; injection e2 with e2
+    exact absurd (e1.trans e2.symm) (by decide)
+
+/-- … and the same commit from a non-admin is refused, so the re-use needs an admin -/
+def iRemoveAddNonAdmin : Identity.Staged :=
+  { sender := .member 2, path := some (.basic 12 200),
+    props := [{ p := .remove 1, sender := .member 2, byRef := false }, { p := .add (.basic 50 500), sender := .member 2, byRef := false }] }
+
+theorem witness_remove_add_needs_admin :
+    (Identity.processCommit Identity.codeShape Identity.openmls081 iSt iRemoveAddNonAdmin).2 = .error .nonAdmin := by decide
+
+/-- non-vacuity of `identity_preserved`'s hypotheses: an accepted commit with a surviving leaf whose credential DOES change (new
+    signature key, same identity), beside a removed and re-filled leaf -/
+example : (Identity.processCommit Identity.codeShape Identity.openmls081 iSt iRemoveAdd).2 = .ok () ∧
+    Identity.removed iRemoveAdd 0 = false ∧ Identity.removed iRemoveAdd 1 = true ∧
+    Identity.lookup 0 (Identity.processCommit Identity.codeShape Identity.openmls081 iSt iRemoveAdd).1.tree = some (.basic 10 200) ∧
+    Identity.StoreNoUpdate iSt := by
+  refine ⟨by decide, by decide, by decide, by decide, ?_⟩
+  intro q hq; cases hq
+
+end Identity
 
 end MdkVerif.Props.C05
